@@ -125,7 +125,11 @@ func genValue(rt *rapid.T, t *Type, o GenOpts, depth int, unique bool) V {
 			}
 			return 2.5
 		default:
-			return rapid.Float64().Draw(rt, "dbl")
+			d := rapid.Float64().Draw(rt, "dbl")
+			if unique && d == 0 {
+				return float64(0) // rapid draws -0 too
+			}
+			return d
 		}
 	case String:
 		return []byte(rapid.StringOfN(rapid.RuneFrom([]rune("abcXYZ09 _\"\\'\n\t\u00e9\u4e16\U0001F600")), 0, 6, -1).Draw(rt, "str"))
